@@ -18,7 +18,8 @@ def run(chk):
         "conjugation, unchanged for reshaping, selected factor for decompositions, n(a)+s*t / n(a)-s*t for add/remove leg, guards "
         "for additions/eigh/diag/block). CFG dominance of the selection-rule guard over the stores of set_block; presence of the "
         "selection-rule filter in _fill_tensor and of is_consistent() in loaders. Index-space and parallel-construction rules of "
-        "engine E3 for the coherence of s / hfs / mfs.")
+        "engine E3 for the coherence of s / hfs / mfs."
+        ' Width-nsym slices of flat block-charge tuples must start at a multiple of nsym (polynomial identity on the slice bounds); N-ary operations must treat all operands alike.')
     chk.trusted_base = ["python ast parser", "exact polynomial arithmetic", "C19 (the group law is linear modulo m)"]
     e6.run_S1(chk)
     e6.run_S2(chk)
